@@ -198,6 +198,25 @@ def nested_equal_spans_then_remove(rng):
     return ops_
 
 
+ESC_PIECES = ['\x1b[1m', '\x1b[31m', '\x1b[0m', '\x1b[m', '\x1b[', '\x1b[3', '\x1b[2J', '\x1b', '\x1b[38;5;200m']
+
+
+def literal_escape_text(rng):
+    """A value whose *base text* contains (pieces of) escape sequences: assign_str takes the text as it is.
+    Every later operation has to treat them as ordinary characters - nothing may parse the text again."""
+    n = rng.choice([2, 3, 4])
+    text = ''.join(rng.choice('ab-') for _ in range(n))
+    ops_ = [_new(text, [rng.choice(CONFLICT_RICH)] if rng.random() < 0.7 else None, 0)]
+    if rng.random() < 0.6:
+        a = rng.randrange(n)
+        ops_.append(_apply(0, [rng.choice(CONFLICT_RICH)], a, None if rng.random() < 0.5 else rng.randint(a + 1, n)))
+    k = rng.randint(0, n)
+    ops_.append({'op': 'assign', 'r': 0, 'text': text[:k] + rng.choice(ESC_PIECES) + text[k:]})
+    if rng.random() < 0.4:
+        ops_.append({'op': 'conv', 'r': 0, 'how': 'ctor', 'cls': 'A', 'd': 1, 'st': None})
+    return ops_
+
+
 def pick(rng, prop):
     x = rng.random()
     name = rng.choice(NAMES)
@@ -205,6 +224,7 @@ def pick(rng, prop):
     rich = rich_value(rng)
     ror = restart_overlay_remove(rng)
     nes = nested_equal_spans_then_remove(rng)
+    esc = literal_escape_text(rng)
     if x < 0.20:
         return copy.deepcopy(SCENARIOS[name])
     if x < 0.28:
@@ -215,4 +235,6 @@ def pick(rng, prop):
         return ror
     if x < 0.56:
         return nes
+    if x < 0.59:
+        return esc
     return None
